@@ -562,6 +562,10 @@ func (pi *pinterp) global(o *types.Var) pval {
 		return pval{}
 	}
 	v := pi.eval(p.TypesInfo, init, &penv{vars: map[types.Object]pval{}})
+	if v.k == pvUnknown && o.Type().String() == "*math/big.Int" {
+		// a named bound (MinInt8, MaxUint64, Zero): carried by name, its value is read off the initialiser by the rule
+		v = pval{k: pvAbs, s: "bigint:" + o.Name()}
+	}
 	pi.globals[o] = v
 	return v
 }
@@ -1049,6 +1053,19 @@ func (pi *pinterp) exec(info *types.Info, list []ast.Stmt, env *penv) pctl {
 				}
 			}
 		case *ast.AssignStmt:
+			if len(s.Lhs) > 2 && len(s.Rhs) == 1 {
+				if ce, ok := ast.Unparen(s.Rhs[0]).(*ast.CallExpr); ok {
+					rs := pi.call(info, ce, env)
+					for i, l := range s.Lhs {
+						v := pval{}
+						if i < len(rs) {
+							v = rs[i]
+						}
+						pi.bind(info, l, v, env, s.Tok)
+					}
+					continue
+				}
+			}
 			if len(s.Lhs) == 2 && len(s.Rhs) == 1 {
 				if ta, ok := ast.Unparen(s.Rhs[0]).(*ast.TypeAssertExpr); ok {
 					v := pi.eval(info, ta.X, env)
